@@ -33,6 +33,7 @@ pub fn opts(tier: Tier) -> GenOpts {
         strata: [5, 2, 2, 1],
         precedence: true,
         avoid_insert: false,
+        pad_tokens: true,
     }
 }
 
